@@ -46,6 +46,10 @@ class TranslateError(Exception):
     pass
 
 
+class NeedsControlFlow(Exception):
+    """an operand of and/or after the first one may raise: the test must be translated as control flow"""
+
+
 # ----------------------------------------------------------------------------------------------
 # types
 # ----------------------------------------------------------------------------------------------
@@ -172,6 +176,26 @@ class FnTranslator:
         self.ret_ty = None
         self.legend = {}  # lean name -> python name (for the evidence; not written to the Lean file)
         self.identity_fns = set()
+        self.pending = []  # effects of the expression being translated: (temporary, Lean text : Except PyErr _)
+        self.ntemps = 0
+
+    # ---------------- effects
+    def effect(self, lean_expr):
+        t = "t%d" % self.ntemps
+        self.ntemps += 1
+        self.pending.append((t, lean_expr))
+        return t
+
+    def take(self):
+        eff, self.pending = self.pending, []
+        return eff
+
+    @staticmethod
+    def wrap(eff, text):
+        """evaluate the effects (in order) in front of `text`"""
+        for t, e in reversed(eff):
+            text = "match %s with\n| .error e => .error e\n| .ok %s =>\n%s" % (e, t, indent(text))
+        return text
 
     # ---------------- names
     def local(self, pyname):
@@ -272,7 +296,13 @@ class FnTranslator:
             return "(!%s)" % self.truth(e.operand, env)
         if isinstance(e, ast.BoolOp):
             op = " && " if isinstance(e.op, ast.And) else " || "
-            return "(" + op.join(self.truth(x, env) for x in e.values) + ")"
+            parts = []
+            for i, x in enumerate(e.values):
+                n0 = len(self.pending)
+                parts.append(self.truth(x, env))
+                if i > 0 and len(self.pending) > n0:
+                    raise NeedsControlFlow()
+            return "(" + op.join(parts) + ")"
         text, ty = self.expr(e, env)
         if ty == "bool":
             return text
@@ -300,7 +330,12 @@ class FnTranslator:
                 return "(-%s)" % t, "int"
         if isinstance(e, ast.BoolOp):
             # and/or return one of the operands; only the all-bool case is an expression of the subset
-            parts = [self.expr(x, env) for x in e.values]
+            n0 = len(self.pending)
+            parts = [self.expr(x, env) for x in e.values[:1]]
+            n1 = len(self.pending)
+            parts += [self.expr(x, env) for x in e.values[1:]]
+            if len(self.pending) > n1:
+                raise TranslateError("line %d: an operand of and/or that may raise, outside an `if` test" % e.lineno)
             if all(ty == "bool" for _t, ty in parts):
                 op = " && " if isinstance(e.op, ast.And) else " || "
                 return "(" + op.join(t for t, _ in parts) + ")", "bool"
@@ -325,10 +360,14 @@ class FnTranslator:
             v = self.static_truth(e.test, env)
             if v is not None:
                 return self.expr(e.body if v else e.orelse, env)
+            c = self.truth(e.test, env)
+            n0 = len(self.pending)
             a, at = self.expr(e.body, env)
             b, bt = self.expr(e.orelse, env)
+            if len(self.pending) > n0:
+                raise TranslateError("line %d: a branch of a conditional expression may raise" % e.lineno)
             unify(at, bt, "line %d: conditional expression" % e.lineno)
-            return "(if %s then %s else %s)" % (self.truth(e.test, env), a, b), at
+            return "(if %s then %s else %s)" % (c, a, b), at
         if isinstance(e, ast.Subscript):
             return self.subscript(e, env)
         if isinstance(e, ast.Call):
@@ -387,7 +426,17 @@ class FnTranslator:
                 if ut != "int":
                     raise TranslateError("line %d: slice bound of type %s" % (e.lineno, type_name(ut)))
                 return "(sliceFrom %s %s)" % (v, u), vt
-        raise TranslateError("line %d: subscript other than [:e] / [e:] (indexing may raise; it is outside the subset)" % e.lineno)
+        if not isinstance(sl, (ast.Slice, ast.Tuple)):
+            i, it = self.expr(sl, env)
+            if it != "int":
+                raise TranslateError("line %d: index of type %s" % (e.lineno, type_name(it)))
+            if vt == "str":
+                return "[%s]" % self.effect("idxE %s %s" % (v, i)), "str"
+            if vt == "bytes":
+                return self.effect("idxE %s %s" % (v, i)), "byte"
+            if is_list(vt) and vt[1].ty is not None and not is_list(vt[1].ty):
+                return self.effect("idxE %s %s" % (v, i)), vt[1].ty
+        raise TranslateError("line %d: subscript other than x[i], x[:e], x[e:]" % e.lineno)
 
     def call(self, e, env):
         if e.keywords:
@@ -451,6 +500,23 @@ class FnTranslator:
         env[name] = B(x, ty, False, False)
         return env, ["let %s : %s := %s" % (x, lean_type(ty), text)]
 
+    def branch(self, test, env, kt, kf):
+        """an `if` test as control flow (short circuit kept): Lean text of `if test then kt() else kf()`"""
+        v = self.static_truth(test, env)
+        if v is not None:
+            return kt() if v else kf()
+        if isinstance(test, ast.UnaryOp) and isinstance(test.op, ast.Not):
+            return self.branch(test.operand, env, kf, kt)
+        if isinstance(test, ast.BoolOp):
+            first, others = test.values[0], test.values[1:]
+            more = others[0] if len(others) == 1 else ast.BoolOp(op=test.op, values=others, lineno=test.lineno)
+            if isinstance(test.op, ast.And):
+                return self.branch(first, env, lambda: self.branch(more, env, kt, kf), kf)
+            return self.branch(first, env, kt, lambda: self.branch(more, env, kt, kf))
+        c = self.truth(test, env)
+        eff = self.take()
+        return self.wrap(eff, "if %s then\n%s\nelse\n%s" % (c, indent(kt()), indent(kf())))
+
     def peek_type(self, e, env):
         if isinstance(e, ast.Name) and e.id in env:
             return env[e.id].ty
@@ -466,6 +532,8 @@ class FnTranslator:
         """Lean text (type `Except PyErr _`) of the statements followed by the continuation `k(env)`"""
         if not stmts:
             return k(env)
+        if self.pending:
+            raise TranslateError("internal: unflushed effects")
         s, rest = stmts[0], stmts[1:]
         if isinstance(s, ast.Pass):
             return self.block(rest, env, k)
@@ -484,7 +552,8 @@ class FnTranslator:
                     raise TranslateError("line %d: a list stored in a list (aliasing)" % s.lineno)
                 unify(b.ty, t_list(ty), "line %d: append" % s.lineno)
                 env2, lets = self.assign_value(name, "(%s ++ [%s])" % (b.text, t), b.ty, env)
-                return "\n".join(lets + [self.block(rest, env2, k)])
+                eff = self.take()
+                return self.wrap(eff, "\n".join(lets + [self.block(rest, env2, k)]))
             raise TranslateError("line %d: expression statement outside the subset" % s.lineno)
         if isinstance(s, ast.Assign):
             lets = []
@@ -499,7 +568,10 @@ class FnTranslator:
                 cur = dict(cur)
                 cur[tgt.id] = cur2[tgt.id]
                 lets += l
-            return "\n".join(lets + [self.block(rest, cur, k)])
+                if len(s.targets) > 1 and self.pending:
+                    raise TranslateError("line %d: chained assignment of an expression that may raise" % s.lineno)
+            eff = self.take()
+            return self.wrap(eff, "\n".join(lets + [self.block(rest, cur, k)]))
         if isinstance(s, ast.AugAssign):
             if not isinstance(s.target, ast.Name) or not isinstance(s.op, ast.Add):
                 raise TranslateError("line %d: augmented assignment other than `name += e`" % s.lineno)
@@ -510,17 +582,23 @@ class FnTranslator:
             new = ast.BinOp(left=ast.Name(id=s.target.id, ctx=ast.Load(), lineno=s.lineno), op=ast.Add(), right=s.value, lineno=s.lineno)
             text, ty = self.expr(new, env)
             env2, lets = self.assign_value(s.target.id, text, ty, env)
-            return "\n".join(lets + [self.block(rest, env2, k)])
+            eff = self.take()
+            return self.wrap(eff, "\n".join(lets + [self.block(rest, env2, k)]))
         if isinstance(s, ast.If):
             v = self.static_truth(s.test, env)
             if v is True:
                 return self.block(list(s.body) + rest, env, k)
             if v is False:
                 return self.block(list(s.orelse) + rest, env, k)
-            c = self.truth(s.test, env)
-            a = self.block(list(s.body) + rest, env, k)
-            b = self.block(list(s.orelse) + rest, env, k)
-            return "if %s then\n%s\nelse\n%s" % (c, indent(a), indent(b))
+            kt = lambda: self.block(list(s.body) + rest, env, k)
+            kf = lambda: self.block(list(s.orelse) + rest, env, k)
+            try:
+                c = self.truth(s.test, env)
+            except NeedsControlFlow:
+                self.pending = []
+                return self.branch(s.test, env, kt, kf)
+            eff = self.take()
+            return self.wrap(eff, "if %s then\n%s\nelse\n%s" % (c, indent(kt()), indent(kf())))
         if isinstance(s, ast.Continue):
             if self.loop is None:
                 raise TranslateError("line %d: continue outside a loop" % s.lineno)
@@ -542,7 +620,7 @@ class FnTranslator:
                 self.ret_ty = ty
             else:
                 unify(self.ret_ty, ty, "line %d: return" % s.lineno)
-            return ".ok %s" % text
+            return self.wrap(self.take(), ".ok %s" % text)
         if isinstance(s, ast.For):
             return self.for_loop(s, rest, env, k)
         raise TranslateError("line %d: statement %s is outside the subset" % (s.lineno, type(s).__name__))
@@ -619,6 +697,7 @@ class FnTranslator:
         else:
             raise TranslateError("line %d: loop target outside the subset" % s.lineno)
         seq, seq_ty = self.expr(it, env)
+        seq_eff = self.take()
         if seq_ty == "str":
             elem_ty, raw_ty = "str", "Char"
         elif seq_ty == "bytes":
@@ -628,8 +707,7 @@ class FnTranslator:
         else:
             raise TranslateError("line %d: iteration over a %s" % (s.lineno, type_name(seq_ty)))
         read = self.names_read_outside_raise(s.body)
-        if index_name is not None and index_name in read:
-            raise TranslateError("line %d: the enumerate index %r is used by the loop body" % (s.lineno, index_name))
+        use_index = index_name is not None and index_name in read
         assigned = self.assigned_names(s.body)
         assigned_set = {a[0] for a in assigned}
         frozen = {n.id for n in ast.walk(it) if isinstance(n, ast.Name)}
@@ -672,6 +750,10 @@ class FnTranslator:
         else:
             benv[elem_name] = B("c", elem_ty, False, False)
             elem_lets = []
+        if use_index:  # the fold runs over (item, position) pairs
+            x = self.local(index_name)
+            benv[index_name] = B(x, "int", False, False)
+            elem_lets = ["let c : %s := ci.1" % raw_ty, "let %s : Int := Int.ofNat ci.2" % x] + elem_lets
         body = self.block(list(s.body), benv, pack)
         captured = self.loop["captured"]
         self.loop = None
@@ -682,7 +764,8 @@ class FnTranslator:
             "structure %s where\n%s\n  deriving Repr, DecidableEq" % (st_name, "\n".join("  %s : %s" % (f, lean_type(ty)) for f, ty in zip(fields, field_tys)))
         )
         self.decls.append(
-            "def %s%s (st : %s) (c : %s) : Except PyErr %s :=\n%s" % (step_name, params, st_name, raw_ty, st_name, indent("\n".join(head_lets + elem_lets + [body])))
+            "def %s%s (st : %s) (%s) : Except PyErr %s :=\n%s"
+            % (step_name, params, st_name, "ci : %s × Nat" % raw_ty if use_index else "c : %s" % raw_ty, st_name, indent("\n".join(head_lets + elem_lets + [body])))
         )
         for f, n in zip(fields, carried):
             self.legend["%s.%s" % (st_name, f)] = n
@@ -695,8 +778,8 @@ class FnTranslator:
             aenv[n] = B(x, ty, False, False)
             lets.append("let %s : %s := st.%s" % (x, lean_type(ty), f))
         after = self.block(rest, aenv, k)
-        call = "foldE (%s%s) %s %s" % (step_name, "".join(" " + n for n in cap_names), "(%s : %s)" % (init, st_name), seq)
-        return "match %s with\n| .error e => .error e\n| .ok st =>\n%s" % (call, indent("\n".join(lets + [after])))
+        call = "foldE (%s%s) %s %s" % (step_name, "".join(" " + n for n in cap_names), "(%s : %s)" % (init, st_name), "(List.zipIdx %s)" % seq if use_index else seq)
+        return self.wrap(seq_eff, "match %s with\n| .error e => .error e\n| .ok st =>\n%s" % (call, indent("\n".join(lets + [after]))))
 
     # ---------------- the function
     def translate(self):
@@ -781,6 +864,14 @@ def sliceTo {α : Type} (s : List α) (e : Int) : List α :=
 def sliceFrom {α : Type} (s : List α) (e : Int) : List α :=
   if e < 0 then s.drop (s.length - e.natAbs) else s.drop e.toNat
 
+/-- `s[i]` (raises `IndexError` outside the range) -/
+def idxE {α : Type} (s : List α) (i : Int) : Except PyErr α :=
+  let j : Int := if i < 0 then i + Int.ofNat s.length else i
+  if j < 0 then .error .IndexError
+  else match s[j.toNat]? with
+    | some v => .ok v
+    | none => .error .IndexError
+
 /-- `str.lstrip()` / `str.rstrip()` without argument -/
 def lstripWs (s : Str) : Str := s.dropWhile isPySpace
 def rstripWs (s : Str) : Str := (s.reverse.dropWhile isPySpace).reverse
@@ -823,6 +914,8 @@ def translate_source(src_text, filename="<src>"):
             text = tr.translate()
         except RecursionError:
             raise TranslateError("%s: nesting too deep" % pyname)
+        except NeedsControlFlow:
+            raise TranslateError("%s: and/or with an operand that may raise, outside an `if` test" % pyname)
         parts.append("/-! ### `%s`, specialisation `%s` -/\n\n%s\n" % (pyname, lean_name, text))
         legend[lean_name] = tr.legend
     out = "\n".join(parts) + "\nend N0.Gen.CsvPy\n"
